@@ -46,6 +46,15 @@ Theorem C13_text_roundtrip : forall s u, parse_url s = POk u ->
 Proof. exact text_canonicalisation_idempotent. Qed.
 Print Assumptions C13_text_roundtrip.
 
+(* "its classification ... is a function of that canonical text": two references with the same canonical text are equal,
+   flags included *)
+Theorem C13_flags_function_of_text : forall u1 u2,
+  one_port (map lower (u_host u1)) = true -> wf_plain (normalize_url u1) = true ->
+  one_port (map lower (u_host u2)) = true -> wf_plain (normalize_url u2) = true ->
+  ref_string (ref_of_url u1) = ref_string (ref_of_url u2) -> ref_of_url u1 = ref_of_url u2.
+Proof. exact flags_function_of_text. Qed.
+Print Assumptions C13_flags_function_of_text.
+
 (* "its JSON and gob encodings decode to an equal reference": in the codec model (G = false: JSON; G = true: through gob),
    the object {"$ref": canonical text} decodes and re-encodes to itself, as a Ref and as the Refable part of any kind;
    "an empty reference encodes as an empty object" *)
